@@ -1,4 +1,4 @@
-"""C05 - two indexed reflections determine the correct orientation (Busing-Levy): kernel safety proof + bounded stand-in."""
+"""C05 - two indexed reflections determine the correct orientation (Busing-Levy): functional proof of the kernel + bounded stand-in."""
 import numpy as np
 from verif.units import CUnit, BoundedUnit
 from verif.tunits import repo_module
@@ -7,9 +7,12 @@ import contracts  # noqa
 LEVEL = "other"
 WALL_MS = 60000
 TRUSTED = []
-ASSUMPTIONS = ["bounded: the stated cells, rings and reflection pairs only; the algebraic core lemma quickorient o BTmat == inverse(U.B) of DESIGN.md "
-               "section 5 (C05) was not brought under the solver"]
-EXPLANATION = ("Proved: memory safety of the compiled quickorient kernel. Bounded (not counted as proved): for 9 cells of all lattice systems, random "
+ASSUMPTIONS = ["bounded: the stated cells, rings and reflection pairs only for unitcell.orient / filter_pairs / BTmat (python side)",
+               "quickorient is proved over the reals (machine arithmetic treated as mathematical; sqrt(x)^2 == x instantiated per call) under the "
+               "precondition g1 != 0 and g1 x g2 != 0; that BT = BTmat(h1, h2) holds the crystal-frame coordinates is bounded only"]
+EXPLANATION = ("Proved: memory safety of the compiled quickorient kernel and its Busing-Levy postcondition: for all g1, g2 with g1 x g2 != 0 and all BT "
+               "the result R satisfies R.g1 = BT.(|g1|,0,0), R.(g1 x g2) = BT.(0,0,|g1 x g2|), R.g2 = BT.(g1.g2/|g1|, -|g1 x g2|/|g1|, 0), which fixes "
+               "all nine entries. Bounded (not counted as proved): for 9 cells of all lattice systems, random "
                "orientations and every pair of non-collinear reflections from the first rings (both the closest-angle and the crange > 0 mode of "
                "unitcell.orient), every candidate is right-handed, has the cell's parameters and gives integer hkl to both reflections; the candidate "
                "list contains an orientation equivalent to the true one (integer unimodular change of basis preserving the metric) and no two "
@@ -101,5 +104,5 @@ def bounded(ctx):
 
 
 def units(ctx):
-    return [CUnit("cdiffraction.c:quickorient", mode="safety"),
+    return [CUnit("cdiffraction.c:quickorient", mode="full"),
             BoundedUnit("orient-candidates", bounded, "9 cells x 3 (thorough 5) rings x hkl pairs x 2 modes")]
